@@ -62,7 +62,7 @@ pub fn run() {
                     let dir = base.join(d);
                     std::fs::create_dir_all(&dir).unwrap();
                     seq += 1;
-                    let name = if *kind == "cur" { NAME.to_string() } else { format!("{}.2020-01-01T00.00.00.{:03}-{:019}.log", NAME, seq % 1000, seq) };
+                    let name = if *kind == "cur" { NAME.to_string() } else { format!("{}.2020-01-01T00.00.00.000-{:019}.log", NAME, seq) };
                     std::fs::write(dir.join(name), vec![b'p'; size.parse().unwrap()]).unwrap();
                     listing(&dir)
                 }
@@ -144,7 +144,7 @@ pub fn run() {
                     std::fs::create_dir_all(&dir).unwrap();
                     for _ in 0..k.parse::<u64>().unwrap() {
                         seq += 1;
-                        let name = format!("AuthorizationRules_2020-01-01T00.00.00.{:03}-{:019}.json", seq % 1000, seq);
+                        let name = format!("AuthorizationRules_2020-01-01T00.00.00.000-{:019}.json", seq);
                         std::fs::write(dir.join(&name), b"{}").unwrap();
                     }
                     std::fs::write(dir.join("unrelated.txt"), b"x").unwrap();
